@@ -1,6 +1,7 @@
 package rules
 
 import (
+	"fmt"
 	"go/token"
 	"go/types"
 	"strings"
@@ -31,6 +32,8 @@ func runC01(c *engine.Ctx) {
 	checkRouterDuplicates(c, "R9")
 	checkGracefulClose(c, "R10")
 	checkWrapperCloseFns(c, "R11") // shared with C10.R12: closing the limiter wrapper must close the tunnel stream
+	checkDeadlineDisarm(c, "R12")
+	checkHandOverFlags(c, "R13")
 }
 
 // ---- R2 ----
@@ -866,4 +869,247 @@ func checkGracefulClose(c *engine.Ctx, rule string) {
 			}}, "Stream.Close and CancelRead on every path")
 	}
 	c.Floor(n, 2)
+}
+
+// ---- R12 ----
+
+// checkDeadlineDisarm: a function that arms a connection's deadline for both directions (SetDeadline with a real time)
+// and later clears it must clear both directions again: clearing only the read half leaves a write deadline ticking,
+// and every write towards the user fails once it has passed (long-lived https / tcpmux connections are cut).
+func checkDeadlineDisarm(c *engine.Ctx, rule string) {
+	c.Rule(rule, "where a connection's deadline is armed with SetDeadline(t) and cleared again in the same function, it is cleared for both directions (SetDeadline(zero), or both SetReadDeadline(zero) and SetWriteDeadline(zero)) on every path that hands the connection on")
+	p := c.P
+	n := 0
+	isZeroTime := func(v ssa.Value) bool {
+		// time.Time{} literal: a zero-valued struct (load of a fresh alloc / zero const)
+		switch x := engine.Unwrap(v).(type) {
+		case *ssa.Const:
+			return true
+		case *ssa.UnOp:
+			if al, ok := x.X.(*ssa.Alloc); ok {
+				stored := false
+				if al.Referrers() != nil {
+					for _, r := range *al.Referrers() {
+						if _, ok := r.(*ssa.Store); ok {
+							stored = true
+						}
+						if _, ok := r.(*ssa.FieldAddr); ok {
+							stored = true
+						}
+					}
+				}
+				return !stored
+			}
+		}
+		return false
+	}
+	deadlineCall := func(in ssa.Instruction) (name string, zero bool) {
+		call, ok := in.(ssa.CallInstruction)
+		if !ok {
+			return "", false
+		}
+		nm := ""
+		if call.Common().IsInvoke() {
+			nm = call.Common().Method.Name()
+		} else if o := engine.CalleeObj(call); o != nil {
+			nm = o.Name()
+		}
+		switch nm {
+		case "SetDeadline", "SetReadDeadline", "SetWriteDeadline":
+			args := call.Common().Args
+			if len(args) == 0 {
+				return "", false
+			}
+			return nm, isZeroTime(args[len(args)-1])
+		}
+		return "", false
+	}
+	for _, f := range p.RepoFuncs() {
+		if f.Pkg == nil || !(strings.HasSuffix(f.Pkg.Pkg.Path(), "/pkg/util/vhost") || strings.HasSuffix(f.Pkg.Pkg.Path(), "/pkg/util/net") || strings.HasSuffix(f.Pkg.Pkg.Path(), "/pkg/util/tcpmux") || strings.HasSuffix(f.Pkg.Pkg.Path(), "/server")) {
+			continue
+		}
+		arms, clears := 0, 0
+		engine.ForEachInstr(f, func(in ssa.Instruction) {
+			if nm, z := deadlineCall(in); nm == "SetDeadline" && !z {
+				arms++
+			} else if nm != "" && z {
+				clears++
+			}
+		})
+		if arms == 0 || clears == 0 {
+			continue
+		}
+		n++
+		f := f
+		c.AllPaths(p.FuncName(f)+">deadline-cleared", engine.PathCheck{Fn: f, Sink: engine.IsReturn,
+			Event: func(in ssa.Instruction) string {
+				nm, z := deadlineCall(in)
+				switch {
+				case nm == "SetDeadline" && !z:
+					return "arm"
+				case nm == "SetDeadline" && z:
+					return "clear-both"
+				case nm == "SetReadDeadline" && z:
+					return "clear-read"
+				case nm == "SetWriteDeadline" && z:
+					return "clear-write"
+				}
+				return ""
+			},
+			Pred: func(st *engine.PathState) string {
+				if !st.HasEvent("arm") {
+					return ""
+				}
+				a := st.EventIndex("arm")
+				both := st.HasEvent("clear-both") && st.EventIndex("clear-both") > a
+				rd := st.HasEvent("clear-read") && st.EventIndex("clear-read") > a
+				wr := st.HasEvent("clear-write") && st.EventIndex("clear-write") > a
+				if rd != wr && !both {
+					return "the deadline armed for both directions is cleared for one direction only: the other keeps ticking and cuts the connection when it expires"
+				}
+				return ""
+			}}, "a cleared deadline is cleared for both directions")
+	}
+	c.Floor(n, 1)
+}
+
+// ---- R13 ----
+
+// checkHandOverFlags: the idiom `handedOver := false; defer func() { if !handedOver { conn.Close() } }()` keeps a
+// connection open past the function only when somebody else took it over. The flag may therefore become true only on
+// paths where the hand-over call (the repo function that received that connection and returned an error value) was
+// found to have succeeded; setting it first and merely logging a failed hand-over leaves the connection open for good.
+func checkHandOverFlags(c *engine.Ctx, rule string) {
+	c.Rule(rule, "a bool that suppresses a deferred Close of a connection is set only on paths where the call that took the connection over returned a nil error")
+	p := c.P
+	n := 0
+	for _, f := range p.RepoFuncs() {
+		if f.Pkg == nil || f.Parent() != nil {
+			continue
+		}
+		f := f
+		// deferred closures of f that close something under a test of a captured bool cell
+		engine.ForEachInstr(f, func(in ssa.Instruction) {
+			d, ok := in.(*ssa.Defer)
+			if !ok {
+				return
+			}
+			mc, ok := d.Call.Value.(*ssa.MakeClosure)
+			if !ok {
+				return
+			}
+			cf, _ := mc.Fn.(*ssa.Function)
+			if cf == nil {
+				return
+			}
+			// the closure: if !*flag { x.Close() }
+			var flag *ssa.Alloc
+			var closed ssa.Value
+			for i, b := range mc.Bindings {
+				al, ok := b.(*ssa.Alloc)
+				if !ok || i >= len(cf.FreeVars) {
+					continue
+				}
+				if bt, ok := engine.Deref(al.Type()).Underlying().(*types.Basic); !ok || bt.Kind() != types.Bool {
+					continue
+				}
+				// is the free var tested by an If?
+				tested := false
+				if refs := cf.FreeVars[i].Referrers(); refs != nil {
+					for _, r := range *refs {
+						if u, ok := r.(*ssa.UnOp); ok && u.Referrers() != nil {
+							for _, rr := range *u.Referrers() {
+								if _, isIf := rr.(*ssa.If); isIf {
+									tested = true
+								}
+								if un, ok := rr.(*ssa.UnOp); ok && un.Op == token.NOT {
+									tested = true
+								}
+							}
+						}
+					}
+				}
+				if tested {
+					flag = al
+				}
+			}
+			if flag == nil {
+				return
+			}
+			engine.ForEachInstr(cf, func(x ssa.Instruction) {
+				if cc, ok := x.(ssa.CallInstruction); ok && isCloserClose(cc) {
+					closed = engine.CallArgs(cc)[0]
+				}
+			})
+			if closed == nil {
+				return
+			}
+			// what is closed: a captured variable of f (parameter cell or parameter)
+			var conn ssa.Value
+			if u, ok := closed.(*ssa.UnOp); ok {
+				closed = u.X
+			}
+			if fv, ok := closed.(*ssa.FreeVar); ok {
+				conn = engine.ClosureBinding(fv)
+			}
+			if conn == nil {
+				return
+			}
+			sameConn := func(v ssa.Value) bool {
+				v = engine.Unwrap(v)
+				if v == conn {
+					return true
+				}
+				if u, ok := v.(*ssa.UnOp); ok && u.X == conn {
+					return true
+				}
+				if al, ok := conn.(*ssa.Alloc); ok {
+					// the parameter spilled into this cell
+					if pr, ok := v.(*ssa.Parameter); ok && al.Comment == pr.Name() {
+						return true
+					}
+				}
+				return false
+			}
+			// stores of true into the flag
+			engine.ForEachInstr(f, func(x ssa.Instruction) {
+				st, ok := x.(*ssa.Store)
+				if !ok || st.Addr != ssa.Value(flag) {
+					return
+				}
+				if b, ok := engine.ConstBool(st.Val); !ok || !b {
+					return
+				}
+				n++
+				c.AllPaths(fmt.Sprintf("%s>hand-over-flag#%d", p.FuncName(f), n), engine.PathCheck{Fn: f, Sink: engine.Is(x), Pred: func(ps *engine.PathState) string {
+					// some call that received the connection and whose error result was found nil
+					for _, l := range ps.Lits {
+						if l.Op != token.EQL || !l.Val {
+							continue
+						}
+						a, b := l.X, l.Y
+						if engine.IsNilConst(a) {
+							a, b = b, a
+						}
+						if !engine.IsNilConst(b) {
+							continue
+						}
+						cl, _ := engine.ResultOfCall(a)
+						if cl == nil {
+							continue
+						}
+						for _, arg := range engine.CallArgs(cl) {
+							if sameConn(arg) {
+								return ""
+							}
+						}
+					}
+					// or the function keeps using the connection itself afterwards (no hand-over at all on this path):
+					// a join / copy that consumes it counts as well
+					return "the flag that stops the deferred Close is set on a path where no call that took the connection over was found to have succeeded: if the hand-over failed, nobody closes the connection"
+				}}, "hand-over flag only after a successful hand-over")
+			})
+		})
+	}
+	c.Floor(n, 1)
 }
